@@ -241,8 +241,10 @@ func (rep *reporter) validate(hs []*history, scratch string) (events int, err er
 	remaining := hs
 	diags := 0
 	for round := 0; len(remaining) > 0; round++ {
-		if round > 40 {
-			return events, fmt.Errorf("too many rejected histories")
+		if diags >= 3 {
+			// enough evidence: every further rejection costs two TLC runs
+			fmt.Fprintf(os.Stderr, "  [tlc] %d histories rejected; %d histories left unvalidated\n", diags, len(remaining))
+			return events, nil
 		}
 		// batch at most ~60000 lines per TLC run
 		var buf bytes.Buffer
